@@ -74,17 +74,15 @@ func runC04(c *core.Ctx) {
 	g := gen.New(c.R)
 	t := caseTree(c, g, 6)
 	// A wrapper that overrides its cause's message may override it with the
-	// EMPTY string (user wrapper whose Error() returns "", fmt.Errorf("%.0w")):
-	// one elidewrap node in three gets an empty own message. (Empty strings in
-	// other positions are outside the domain: messages are regular = non-empty.)
-	emptied := false
-	gen.Walk(t, func(n *gen.Node, _ bool) {
-		if n.Kind == "elidewrap" && c.R.Intn(3) == 0 {
-			n.S[0] = ""
-			emptied = true
-			c.Count("elide-wrappers-with-empty-message", 1)
-		}
-	})
+	// EMPTY string (user wrapper whose Error() returns "", fmt.Errorf("%.0w")).
+	// An error whose text is empty is outside the domain of regular (non-empty)
+	// messages, and every wrapper above it would get an irregular text too
+	// (dangling ": ", trailing or doubled newlines in joins), so such a node is
+	// only ever placed at the ROOT of the tree, in one case in twelve.
+	if c.R.Intn(12) == 0 {
+		t = &gen.Node{Kind: "elidewrap", S: []string{""}, Kids: []*gen.Node{t}}
+		c.Count("root-overrides-with-empty-message", 1)
+	}
 	coverTree(c, t)
 	e, m, ok := safeBuild(c, t)
 	if !ok {
@@ -151,14 +149,7 @@ func runC04(c *core.Ctx) {
 		}
 		// (a) text at the unknowing process
 		textOK := true
-		if d, owner, want, got := obs.Diff4(s0, su); d != "" && emptied && strings.TrimSuffix(want, ": ") == strings.TrimSuffix(got, ": ") {
-			// A node whose Error() is the empty string is outside the domain of regular
-			// (non-empty) messages; it is generated only to observe that node ITSELF.
-			// A wrapper above it composes "prefix: " + "" and an opaque wrapper drops
-			// that dangling separator: not judged.
-			textOK = false
-			c.Count("skipped(dangling-separator-above-empty-text)", 1)
-		} else if d != "" {
+		if d, owner, want, got := obs.Diff4(s0, su); d != "" {
 			textOK = false
 			c.Violate("text@unknowing/"+famShort(owner)+"/"+textFault(want, got), "a process that does not know some types shows another Error() text (or tree shape) than the origin",
 				fmt.Sprintf("%s\nforgot %v\n%s", t, sub, d))
